@@ -5,7 +5,7 @@ Open Scope Z_scope.
 
 (** what the filter chain (in the GENERATED registration order) lets through *)
 Definition ok_attrs (c : cfg) (e : event) : Prop :=
-  if c_modules c then e_lam e = false /\ e_mc e <> MSkip else e_mc e = MScript.
+  e_lam e = false /\ (if c_modules c then e_mc e <> MSkip else e_mc e = MScript).
 
 Lemma rejected_false_attrs : forall c e fs, fst (rejected c e fs) = false -> ok_attrs c e.
 Proof.
@@ -14,9 +14,9 @@ Proof.
   - change (call_order reg_modules_on) with [FilterByModuleName; FilterLambda; FilerByModule] in H.
     cbn [first_result run_filter] in H. unfold dec_FilterByModuleName, dec_FilterLambda, obs_of in H. cbn [o_skip o_lambda] in H.
     destruct (e_mc e); cbn in H; try discriminate; destruct (e_lam e); cbn in H; try discriminate; split; congruence.
-  - change (call_order reg_modules_off) with [FilterMainScript; FilterLambda] in H.
-    cbn [first_result run_filter] in H. unfold dec_FilterMainScript, obs_of in H. cbn [o_script] in H.
-    destruct (e_mc e); cbn in H; try discriminate; reflexivity.
+  - change (call_order reg_modules_off) with [FilterLambda; FilterMainScript] in H.
+    cbn [first_result run_filter] in H. unfold dec_FilterMainScript, dec_FilterLambda, obs_of in H. cbn [o_script o_lambda] in H.
+    destruct (e_lam e); cbn in H; try discriminate; destruct (e_mc e); cbn in H; try discriminate; split; reflexivity.
 Qed.
 
 (** the attributes of a frame do not change during its life *)
@@ -86,15 +86,16 @@ Theorem no_prompt_in_untraced_thread : forall c pol evs,
   c_threads c = false -> c_main c = false -> prompts c pol evs = [] /\ trace_calls c pol evs = [].
 Proof. intros c pol evs H1 H2. unfold prompts, trace_calls, run, stream_traced. rewrite H1, H2. simpl. auto. Qed.
 
-Theorem filters_partial : forall c pol evs p,
+Theorem filters_full : forall c pol evs p,
   frame_attrs_const evs -> In p (prompts c pol evs) ->
   exists e, nth_error evs (p_idx p) = Some e /\
             p_kind p = e_kind e /\ p_line p = e_line e /\ p_fid p = e_fid e /\
+            e_lam e = false /\
             (c_modules c = false -> e_mc e = MScript) /\
-            (c_modules c = true -> e_lam e = false /\ e_mc e <> MSkip).
+            (c_modules c = true -> e_mc e <> MSkip).
 Proof.
   intros c pol evs p CONST HP. destruct (prompts_at_accepted_events c pol evs p CONST HP) as (e & N & EQ & OK).
   exists e. split; [exact N|]. rewrite EQ; simpl.
   split; [reflexivity|]. split; [reflexivity|]. split; [reflexivity|].
-  unfold ok_attrs in OK. split; intro M; rewrite M in OK; exact OK.
+  unfold ok_attrs in OK. destruct OK as [L M]. split; [exact L|]. split; intro X; rewrite X in M; exact M.
 Qed.
